@@ -2,7 +2,7 @@
 
 //go:debug asynctimerchan=0
 
-package keepclient
+package controller
 
 import (
 	"testing"
@@ -12,8 +12,8 @@ import (
 
 func TestVerif(t *testing.T) {
 	vsim.Main(t, map[string]vsim.Scenario{
-		"C11": scenC11,
-		"C03": scenC03,
-		"C12": scenC12,
+		"C18": scenC18,
+		"C19": scenC19,
+		"C20": scenC20,
 	})
 }
